@@ -487,7 +487,7 @@ fn main() {
         let extra = 1 + rng.below(40) as usize;
         m.extend(rvec(&mut rng, extra));
         ctx.one("trailing-bytes", *fmt, &m, what);
-        let flips = if thorough { 60 } else { 16 };
+        let flips = if thorough { 200 } else { 16 };
         for _ in 0..flips {
             if bytes.is_empty() {
                 break;
@@ -499,7 +499,7 @@ fn main() {
         }
     }
     // 4. random strings for every decoder, with every message tag in front
-    let nrand = if thorough { 600 } else { 160 };
+    let nrand = if thorough { 1800 } else { 160 };
     for fmt in 1..=14u64 {
         for k in 0..nrand {
             let len = match k % 4 {
